@@ -988,7 +988,7 @@ ipr::Visitor::visit(const Parameter& d)
 void
 ipr::Visitor::visit(const Parameter_list& l)
 {
-   visit(as<Node>(l));
+   visit(as<Expr>(l));
 }
 
 void
